@@ -6,7 +6,10 @@ use std::fs;
 use std::path::Path;
 
 fn main() {
-    let src_path = "/repo/src/bin/mstsc-rs.rs";
+    // VERIF_REPO: tooling only (a scratch copy of the repository); the registered commands never set it
+    println!("cargo:rerun-if-env-changed=VERIF_REPO");
+    let src_path = format!("{}/src/bin/mstsc-rs.rs", std::env::var("VERIF_REPO").unwrap_or_else(|_| "/repo".into()));
+    let src_path = src_path.as_str();
     println!("cargo:rerun-if-changed={}", src_path);
     let src = fs::read_to_string(src_path).expect("read mstsc-rs.rs");
     let out = std::env::var("OUT_DIR").unwrap();
